@@ -2112,29 +2112,8 @@ fn resolve_column_in_combined(
         .collect();
     let combined = Schema::new(combined_fields);
 
-    // Use the exact same resolution as find_column_index in filter.rs
-    // 1. Try qualified name
-    if let Some(relation) = &col.relation {
-        let qualified = format!("{}.{}", relation, col.name);
-        if let Ok(idx) = combined.index_of(&qualified) {
-            return Some(idx);
-        }
-    }
-
-    // 2. Try unqualified name
-    if let Ok(idx) = combined.index_of(&col.name) {
-        return Some(idx);
-    }
-
-    // 3. Try suffix match
-    let suffix = format!(".{}", col.name);
-    for (i, field) in combined.fields().iter().enumerate() {
-        if field.name().ends_with(&suffix) || field.name() == &col.name {
-            return Some(i);
-        }
-    }
-
-    None
+    // The exact same resolution as find_column_index in filter.rs
+    crate::physical::operators::filter::resolve_column_index(&combined, col).ok()
 }
 
 /// Parallel probe for INNER joins using specialized i64 hash table.
